@@ -781,3 +781,222 @@ package ring
 
 //@ afunc Poly.Resize
 //@   trusted changing the level keeps the represented element (its residue on the remaining moduli) and the identity of the polynomial
+
+// ==== Ring-level operations (ring/operations.go): loops over the RNS rows, verified per generic row ====
+//@ spec ringwf(r) = 0 <= r.level && r.level < len(r.SubRings)
+
+//@ func Ring.Add
+//@   property C01
+//@   requires ringwf(r) && r.level < len(p1.Coeffs) && r.level < len(p2.Coeffs) && r.level < len(p3.Coeffs)
+//@   rowloop 0 i 0 r.level+1 out=p3
+//@   rowcall SubRing.Add(r.SubRings[i], p1.Coeffs[i], p2.Coeffs[i], p3.Coeffs[i])
+
+//@ func Ring.AddLazy
+//@   property C01
+//@   requires ringwf(r) && r.level < len(p1.Coeffs) && r.level < len(p2.Coeffs) && r.level < len(p3.Coeffs)
+//@   rowloop 0 i 0 r.level+1 out=p3
+//@   rowcall SubRing.AddLazy(r.SubRings[i], p1.Coeffs[i], p2.Coeffs[i], p3.Coeffs[i])
+
+//@ func Ring.Sub
+//@   property C01
+//@   requires ringwf(r) && r.level < len(p1.Coeffs) && r.level < len(p2.Coeffs) && r.level < len(p3.Coeffs)
+//@   rowloop 0 i 0 r.level+1 out=p3
+//@   rowcall SubRing.Sub(r.SubRings[i], p1.Coeffs[i], p2.Coeffs[i], p3.Coeffs[i])
+
+//@ func Ring.SubLazy
+//@   property C01
+//@   requires ringwf(r) && r.level < len(p1.Coeffs) && r.level < len(p2.Coeffs) && r.level < len(p3.Coeffs)
+//@   rowloop 0 i 0 r.level+1 out=p3
+//@   rowcall SubRing.SubLazy(r.SubRings[i], p1.Coeffs[i], p2.Coeffs[i], p3.Coeffs[i])
+
+//@ func Ring.Neg
+//@   property C01
+//@   requires ringwf(r) && r.level < len(p1.Coeffs) && r.level < len(p2.Coeffs)
+//@   rowloop 0 i 0 r.level+1 out=p2
+//@   rowcall SubRing.Neg(r.SubRings[i], p1.Coeffs[i], p2.Coeffs[i])
+
+//@ func Ring.Reduce
+//@   property C01
+//@   requires ringwf(r) && r.level < len(p1.Coeffs) && r.level < len(p2.Coeffs)
+//@   rowloop 0 i 0 r.level+1 out=p2
+//@   rowcall SubRing.Reduce(r.SubRings[i], p1.Coeffs[i], p2.Coeffs[i])
+
+//@ func Ring.ReduceLazy
+//@   property C01
+//@   requires ringwf(r) && r.level < len(p1.Coeffs) && r.level < len(p2.Coeffs)
+//@   rowloop 0 i 0 r.level+1 out=p2
+//@   rowcall SubRing.ReduceLazy(r.SubRings[i], p1.Coeffs[i], p2.Coeffs[i])
+
+//@ func Ring.MulCoeffsBarrett
+//@   property C01
+//@   requires ringwf(r) && r.level < len(p1.Coeffs) && r.level < len(p2.Coeffs) && r.level < len(p3.Coeffs)
+//@   rowloop 0 i 0 r.level+1 out=p3
+//@   rowcall SubRing.MulCoeffsBarrett(r.SubRings[i], p1.Coeffs[i], p2.Coeffs[i], p3.Coeffs[i])
+
+//@ func Ring.MulCoeffsBarrettLazy
+//@   property C01
+//@   requires ringwf(r) && r.level < len(p1.Coeffs) && r.level < len(p2.Coeffs) && r.level < len(p3.Coeffs)
+//@   rowloop 0 i 0 r.level+1 out=p3
+//@   rowcall SubRing.MulCoeffsBarrettLazy(r.SubRings[i], p1.Coeffs[i], p2.Coeffs[i], p3.Coeffs[i])
+
+//@ func Ring.MulCoeffsBarrettThenAdd
+//@   property C01
+//@   requires ringwf(r) && r.level < len(p1.Coeffs) && r.level < len(p2.Coeffs) && r.level < len(p3.Coeffs)
+//@   rowloop 0 i 0 r.level+1 out=p3
+//@   rowcall SubRing.MulCoeffsBarrettThenAdd(r.SubRings[i], p1.Coeffs[i], p2.Coeffs[i], p3.Coeffs[i])
+
+//@ func Ring.MulCoeffsBarrettThenAddLazy
+//@   property C01
+//@   requires ringwf(r) && r.level < len(p1.Coeffs) && r.level < len(p2.Coeffs) && r.level < len(p3.Coeffs)
+//@   rowloop 0 i 0 r.level+1 out=p3
+//@   rowcall SubRing.MulCoeffsBarrettThenAddLazy(r.SubRings[i], p1.Coeffs[i], p2.Coeffs[i], p3.Coeffs[i])
+
+//@ func Ring.MulCoeffsMontgomery
+//@   property C01
+//@   requires ringwf(r) && r.level < len(p1.Coeffs) && r.level < len(p2.Coeffs) && r.level < len(p3.Coeffs)
+//@   rowloop 0 i 0 r.level+1 out=p3
+//@   rowcall SubRing.MulCoeffsMontgomery(r.SubRings[i], p1.Coeffs[i], p2.Coeffs[i], p3.Coeffs[i])
+
+//@ func Ring.MulCoeffsMontgomeryLazy
+//@   property C01
+//@   requires ringwf(r) && r.level < len(p1.Coeffs) && r.level < len(p2.Coeffs) && r.level < len(p3.Coeffs)
+//@   rowloop 0 i 0 r.level+1 out=p3
+//@   rowcall SubRing.MulCoeffsMontgomeryLazy(r.SubRings[i], p1.Coeffs[i], p2.Coeffs[i], p3.Coeffs[i])
+
+//@ func Ring.MulCoeffsMontgomeryLazyThenNeg
+//@   property C01
+//@   requires ringwf(r) && r.level < len(p1.Coeffs) && r.level < len(p2.Coeffs) && r.level < len(p3.Coeffs)
+//@   rowloop 0 i 0 r.level+1 out=p3
+//@   rowcall SubRing.MulCoeffsMontgomeryLazyThenNeg(r.SubRings[i], p1.Coeffs[i], p2.Coeffs[i], p3.Coeffs[i])
+
+//@ func Ring.MulCoeffsMontgomeryThenAdd
+//@   property C01
+//@   requires ringwf(r) && r.level < len(p1.Coeffs) && r.level < len(p2.Coeffs) && r.level < len(p3.Coeffs)
+//@   rowloop 0 i 0 r.level+1 out=p3
+//@   rowcall SubRing.MulCoeffsMontgomeryThenAdd(r.SubRings[i], p1.Coeffs[i], p2.Coeffs[i], p3.Coeffs[i])
+
+//@ func Ring.MulCoeffsMontgomeryThenAddLazy
+//@   property C01
+//@   requires ringwf(r) && r.level < len(p1.Coeffs) && r.level < len(p2.Coeffs) && r.level < len(p3.Coeffs)
+//@   rowloop 0 i 0 r.level+1 out=p3
+//@   rowcall SubRing.MulCoeffsMontgomeryThenAddLazy(r.SubRings[i], p1.Coeffs[i], p2.Coeffs[i], p3.Coeffs[i])
+
+//@ func Ring.MulCoeffsMontgomeryLazyThenAddLazy
+//@   property C01
+//@   requires ringwf(r) && r.level < len(p1.Coeffs) && r.level < len(p2.Coeffs) && r.level < len(p3.Coeffs)
+//@   rowloop 0 i 0 r.level+1 out=p3
+//@   rowcall SubRing.MulCoeffsMontgomeryLazyThenAddLazy(r.SubRings[i], p1.Coeffs[i], p2.Coeffs[i], p3.Coeffs[i])
+
+//@ func Ring.MulCoeffsMontgomeryThenSub
+//@   property C01
+//@   requires ringwf(r) && r.level < len(p1.Coeffs) && r.level < len(p2.Coeffs) && r.level < len(p3.Coeffs)
+//@   rowloop 0 i 0 r.level+1 out=p3
+//@   rowcall SubRing.MulCoeffsMontgomeryThenSub(r.SubRings[i], p1.Coeffs[i], p2.Coeffs[i], p3.Coeffs[i])
+
+//@ func Ring.MulCoeffsMontgomeryThenSubLazy
+//@   property C01
+//@   requires ringwf(r) && r.level < len(p1.Coeffs) && r.level < len(p2.Coeffs) && r.level < len(p3.Coeffs)
+//@   rowloop 0 i 0 r.level+1 out=p3
+//@   rowcall SubRing.MulCoeffsMontgomeryThenSubLazy(r.SubRings[i], p1.Coeffs[i], p2.Coeffs[i], p3.Coeffs[i])
+
+//@ func Ring.MulCoeffsMontgomeryLazyThenSubLazy
+//@   property C01
+//@   requires ringwf(r) && r.level < len(p1.Coeffs) && r.level < len(p2.Coeffs) && r.level < len(p3.Coeffs)
+//@   rowloop 0 i 0 r.level+1 out=p3
+//@   rowcall SubRing.MulCoeffsMontgomeryLazyThenSubLazy(r.SubRings[i], p1.Coeffs[i], p2.Coeffs[i], p3.Coeffs[i])
+
+//@ func Ring.AddScalar
+//@   property C01
+//@   requires ringwf(r) && r.level < len(p1.Coeffs) && r.level < len(p2.Coeffs)
+//@   rowloop 0 i 0 r.level+1 out=p2
+//@   rowcall SubRing.AddScalar(r.SubRings[i], p1.Coeffs[i], scalar, p2.Coeffs[i])
+
+//@ func Ring.SubScalar
+//@   property C01
+//@   requires ringwf(r) && r.level < len(p1.Coeffs) && r.level < len(p2.Coeffs)
+//@   rowloop 0 i 0 r.level+1 out=p2
+//@   rowcall SubRing.SubScalar(r.SubRings[i], p1.Coeffs[i], scalar, p2.Coeffs[i])
+
+//@ func Ring.MForm
+//@   property C01
+//@   requires ringwf(r) && r.level < len(p1.Coeffs) && r.level < len(p2.Coeffs)
+//@   rowloop 0 i 0 r.level+1 out=p2
+//@   rowcall SubRing.MForm(r.SubRings[i], p1.Coeffs[i], p2.Coeffs[i])
+
+//@ func Ring.MFormLazy
+//@   property C01
+//@   requires ringwf(r) && r.level < len(p1.Coeffs) && r.level < len(p2.Coeffs)
+//@   rowloop 0 i 0 r.level+1 out=p2
+//@   rowcall SubRing.MFormLazy(r.SubRings[i], p1.Coeffs[i], p2.Coeffs[i])
+
+//@ func Ring.IMForm
+//@   property C01
+//@   requires ringwf(r) && r.level < len(p1.Coeffs) && r.level < len(p2.Coeffs)
+//@   rowloop 0 i 0 r.level+1 out=p2
+//@   rowcall SubRing.IMForm(r.SubRings[i], p1.Coeffs[i], p2.Coeffs[i])
+
+//@ func Ring.MulByVectorMontgomery
+//@   property C01
+//@   requires ringwf(r) && r.level < len(p1.Coeffs) && r.level < len(p2.Coeffs)
+//@   rowloop 0 i 0 r.level+1 out=p2
+//@   rowcall SubRing.MulCoeffsMontgomery(r.SubRings[i], p1.Coeffs[i], vector, p2.Coeffs[i])
+
+//@ func Ring.MulByVectorMontgomeryThenAddLazy
+//@   property C01
+//@   requires ringwf(r) && r.level < len(p1.Coeffs) && r.level < len(p2.Coeffs)
+//@   rowloop 0 i 0 r.level+1 out=p2
+//@   rowcall SubRing.MulCoeffsMontgomeryThenAddLazy(r.SubRings[i], p1.Coeffs[i], vector, p2.Coeffs[i])
+
+// scalar products: the scalar is brought to Montgomery form per modulus; the result is the exact product (no Montgomery factor left)
+//@ func Ring.MulScalar
+//@   property C01
+//@   requires ringwf(r) && r.level < len(p1.Coeffs) && r.level < len(p2.Coeffs)
+//@   rowloop 0 i 0 r.level+1 out=p2
+//@   let q = r.SubRings[i].Modulus
+//@   let mc = r.SubRings[i].MRedConstant
+//@   let sm = MForm(scalar, q, r.SubRings[i].BRedConstant)
+//@   rowpre mredpre(q, mc) && bredpre(q, r.SubRings[i].BRedConstant[0], r.SubRings[i].BRedConstant[1])
+//@   rowpre len(p1.Coeffs[i]) % 8 == 0 && len(p2.Coeffs[i]) >= len(p1.Coeffs[i]) && sameOrDisjoint(p2.Coeffs[i][0:len(p1.Coeffs[i])], p1.Coeffs[i][0:len(p1.Coeffs[i])])
+//@   rowpre forall(k, 0, len(p1.Coeffs[i]), p1.Coeffs[i][k] < W)
+//@   rowpost forall(k, 0, len(p1.Coeffs[i]), p2.Coeffs[i][k] < q && cong(p2.Coeffs[i][k], old(p1.Coeffs[i][k]) * scalar, q)) by cong_scale(sm, scalar*W, old(p1.Coeffs[i][k]), q); cong_trans(p2.Coeffs[i][k]*W, old(p1.Coeffs[i][k])*sm, old(p1.Coeffs[i][k])*scalar*W, q); cong_cancelW(p2.Coeffs[i][k], old(p1.Coeffs[i][k])*scalar, mc, (q*mc)/W, q)
+
+//@ func Ring.MulScalarThenAdd
+//@   property C01
+//@   requires ringwf(r) && r.level < len(p1.Coeffs) && r.level < len(p2.Coeffs)
+//@   rowloop 0 i 0 r.level+1 out=p2
+//@   let q = r.SubRings[i].Modulus
+//@   let mc = r.SubRings[i].MRedConstant
+//@   let sm = MForm(scalar, q, r.SubRings[i].BRedConstant)
+//@   let x = old(p1.Coeffs[i][k])
+//@   let z = old(p2.Coeffs[i][k])
+//@   let y = p2.Coeffs[i][k]
+//@   rowpre mredpre(q, mc) && bredpre(q, r.SubRings[i].BRedConstant[0], r.SubRings[i].BRedConstant[1])
+//@   rowpre len(p1.Coeffs[i]) % 8 == 0 && len(p2.Coeffs[i]) >= len(p1.Coeffs[i]) && sameOrDisjoint(p2.Coeffs[i][0:len(p1.Coeffs[i])], p1.Coeffs[i][0:len(p1.Coeffs[i])])
+//@   rowpre forall(k, 0, len(p1.Coeffs[i]), p1.Coeffs[i][k] < W && p2.Coeffs[i][k] <= q)
+//@   rowpost forall(k, 0, len(p1.Coeffs[i]), y < q && cong(y, z + x * scalar, q)) by cong_scale(sm, scalar*W, x, q); cong_refl(z*W, q); cong_add(z*W, z*W, x*sm, x*scalar*W, q); cong_trans(y*W, z*W + x*sm, z*W + x*scalar*W, q); cong_cancelW(y, z + x*scalar, mc, (q*mc)/W, q)
+
+// p2 - p1*scalar: the scalar is reduced, negated, brought to Montgomery form, then multiplied and added
+//@ func Ring.MulScalarThenSub
+//@   property C01
+//@   requires ringwf(r) && r.level < len(p1.Coeffs) && r.level < len(p2.Coeffs)
+//@   rowloop 0 i 0 r.level+1 out=p2
+//@   let q = r.SubRings[i].Modulus
+//@   let mc = r.SubRings[i].MRedConstant
+//@   let bc = r.SubRings[i].BRedConstant
+//@   let t = BRedAdd(scalar, q, bc)
+//@   let u = q - t
+//@   let sm = MForm(u, q, bc)
+//@   let x = old(p1.Coeffs[i][k])
+//@   let z = old(p2.Coeffs[i][k])
+//@   let y = p2.Coeffs[i][k]
+//@   rowpre mredpre(q, mc) && bredpre(q, bc[0], bc[1])
+//@   rowpre len(p1.Coeffs[i]) % 8 == 0 && len(p2.Coeffs[i]) >= len(p1.Coeffs[i]) && sameOrDisjoint(p2.Coeffs[i][0:len(p1.Coeffs[i])], p1.Coeffs[i][0:len(p1.Coeffs[i])])
+//@   rowpre forall(k, 0, len(p1.Coeffs[i]), p1.Coeffs[i][k] < W && p2.Coeffs[i][k] <= q)
+//@   rowpost forall(k, 0, len(p1.Coeffs[i]), y < q && cong(y, z - x * scalar, q)) by cong_neg(t, scalar, q); cong_shift(0 - t, 0 - scalar, 1, q); cong_scale(u, 0 - scalar, W, q); cong_trans(sm, u*W, 0 - scalar*W, q); cong_scale(sm, 0 - scalar*W, x, q); cong_refl(z*W, q); cong_add(z*W, z*W, x*sm, 0 - x*scalar*W, q); cong_trans(y*W, z*W + x*sm, z*W - x*scalar*W, q); cong_cancelW(y, z - x*scalar, mc, (q*mc)/W, q)
+
+//@ func Ring.MulRNSScalarMontgomery
+//@   property C01
+//@   requires ringwf(r) && r.level < len(p1.Coeffs) && r.level < len(p2.Coeffs) && r.level < len(scalar)
+//@   rowloop 0 i 0 r.level+1 out=p2
+//@   rowpre disjoint(scalar, p2.Coeffs[i])
+//@   rowcall SubRing.MulScalarMontgomery(r.SubRings[i], p1.Coeffs[i], scalar[i], p2.Coeffs[i])
